@@ -9,7 +9,8 @@ sys.path.insert(0, os.path.join(ROOT, 'contracts'))
 CACHE = os.path.join(ROOT, '.cache')
 NPROC = int(os.environ.get('VERIF_JOBS', os.cpu_count() or 8))
 
-import cxx2c, tu, families
+sys.path.insert(0, os.path.join(ROOT, 'models'))
+import cxx2c, tu, families, gen_x86
 
 CONFIGS = json.load(open(os.path.join(ROOT, 'configs.json')))
 
@@ -166,9 +167,18 @@ def build_obligation(prop, cfg, db, fn, contract, replace_contracts=None):
     contracts = {fn['cname']: {'clauses': contract.clauses(), 'loops': contract.loops}}
     for cn, c in replace_contracts.items():
         contracts[cn] = {'clauses': c.clauses()}
-    text, externs = tu.assemble(db, fn['cname'], contracts, replace=set(replace_contracts), harness=harness_for(fn, contract),
-                                includes=MODEL_INCLUDES, spec_includes=SPEC_INCLUDES)
-    return Obligation(prop, cfg, fn, contract, text, externs, set(replace_contracts))
+    text, externs, missing = tu.assemble(db, fn['cname'], contracts, replace=set(replace_contracts), harness=harness_for(fn, contract),
+                                         includes=MODEL_INCLUDES, spec_includes=SPEC_INCLUDES, model_text=model_text)
+    ob = Obligation(prop, cfg, fn, contract, text, externs, set(replace_contracts))
+    ob.missing_models = missing
+    return ob
+
+
+LIBM_BUILTIN = ('__builtin_inff', '__builtin_inf', '__builtin_nanf', '__builtin_nan')
+
+
+def model_text(names):
+    return gen_x86.text_for([n for n in names if n not in LIBM_BUILTIN])
 
 
 def _run(cmd, cwd, timeout, env=None, mem_gb=8):
